@@ -87,7 +87,7 @@ def check(ctx):
     # a pair's channel c is the record analysed alone: layout routing of the two-channel input (2xN, Nx2, 2x2, list)
     from ..inputs import check_record
     check_record(ctx, rule_s=None, rule_r="R6-channel-routing")
-    table_purity(ctx)
+    table_purity(ctx, cells=CROSS, T=T)
     ctx.trust("E4 partial evaluation of __getattr__", "E5 kernel summaries (L1, L2)", "L3, L8")
     ctx.assume("exact arithmetic; generic branch (XX, YY non-zero)")
     return ("Cross-spectral cells are compared with their definitions; the swap law (XX<->YY, XY->conj XY), GyyCx+GyyRx=Gyy, GyySx=Gyy(1-coh), "
